@@ -414,7 +414,11 @@ func desugarMulti(ss []Stmt) []Stmt {
 // Canon holds the alias table (operator representations -> canonical token).
 type Canon struct {
 	Alias map[string]string // e.g. "\\lnot" -> "~"
-	Defs  map[string]bool   // operator definition names (compared with the first letter lower-cased)
+	// operator precedences of the front end (TLAMeta.scala), by source spelling
+	infix   map[string][3]int
+	prefix  map[string][2]int
+	postfix map[string]int
+	Defs    map[string]bool // operator definition names (compared with the first letter lower-cased)
 }
 
 var keywordish = map[string]bool{"IF": true, "THEN": true, "ELSE": true, "LET": true, "IN": true, "CASE": true, "OTHER": true, "CHOOSE": true,
@@ -446,47 +450,12 @@ func (c *Canon) Ident(s string) string {
 	return stripDigits(s)
 }
 
-// Expr renders a raw TLA+ token list canonically.
+// Expr renders a raw TLA+ token list (a comma-separated list of expressions) as its fully grouped parse tree
+// (see exprparse.go). A token list the expression parser cannot parse renders as a marker that matches nothing.
 func (c *Canon) Expr(e Expr) []string {
-	var out []string
-	operandEnd := false // does the previous significant token end an operand?
-	e = stripTupleIndices(e)
-	for i := 0; i < len(e); i++ {
-		t := e[i]
-		s := t.S
-		if a, ok := c.Alias[s]; ok && t.Kind == 'o' {
-			s = a
-		}
-		switch {
-		case s == "(" || s == ")":
-			if s == ")" {
-				operandEnd = true
-			} else {
-				operandEnd = false
-			}
-			continue
-		case (s == "/\\" || s == "\\/") && !operandEnd:
-			continue // junction-list bullet
-		case s == "." && i+1 < len(e) && e[i+1].Kind == 'i':
-			out = append(out, "[", `"`+e[i+1].S+`"`, "]")
-			i++
-			operandEnd = true
-			continue
-		}
-		switch t.Kind {
-		case 'i':
-			out = append(out, c.Ident(s))
-			operandEnd = !keywordish[s]
-		case 's':
-			out = append(out, unescapeTLAString(s))
-			operandEnd = true
-		case 'n':
-			out = append(out, s)
-			operandEnd = true
-		default:
-			out = append(out, s)
-			operandEnd = s == "]" || s == "}" || s == ">>" || s == "'" || s == "@"
-		}
+	out, err := c.parseExpr(e)
+	if err != nil {
+		return []string{"UNPARSED(" + err.Error() + ")"}
 	}
 	return out
 }
